@@ -126,7 +126,7 @@ class LogFormatter(logging.Formatter):
         for key, value in dirty_record.items():
             if isinstance(value, dict):
                 value = self.clean_record(value, colorize)
-            elif any(regex.match(key) for regex in COMPILED_KEYS_TO_SANITIZE):
+            elif any(regex.search(key) for regex in COMPILED_KEYS_TO_SANITIZE):
                 value = f"{colors['PURPLE']}<redacted:{self.hash_it(str(value))}>{colors['OFF']}"
             else:
                 value = QUOTES_OR_BACKTICKS_RE.sub(color_value, str(value))
